@@ -22,6 +22,8 @@ import sys
 import tempfile
 
 RECORD = ""
+BASELINE_CHECK = os.path.join(os.path.dirname(os.path.abspath(__file__)),
+                              "baseline_check.py")
 HERE = os.path.dirname(os.path.dirname(os.path.abspath(__file__)))
 PY = "/venv/bin/python"
 
@@ -49,13 +51,13 @@ def run_demo(demo, tree):
   return rc, out[-600:]
 
 
-def do_import(wt, prop):
+def do_import(wt, prop, tag=""):
   wt = os.path.abspath(wt)
   for patch in sorted(glob.glob(os.path.join(wt, "SEED", "patch*.diff"))):
     k = os.path.basename(patch)[5:-5]
     demo = os.path.join(wt, "SEED", "demo%s.py" % k)
     notes = os.path.join(wt, "SEED", "notes%s.md" % k)
-    sid = "%s-%s" % (prop.lower(), k)
+    sid = "%s-%s%s" % (prop.lower(), tag, k)
     print("==", sid)
     sh(["git", "checkout", "--", "."], cwd=wt)
     rc_clean, out_clean = run_demo(demo, wt)
@@ -66,7 +68,7 @@ def do_import(wt, prop):
     try:
       rc_imp, _ = sh([PY, "-W", "ignore", "-c", "import audiolazy"],
                      env=dict(os.environ, PYTHONPATH=wt))
-      rc_base, out_base = sh(["python3", "/tmp/seed/baseline_check.py", wt])
+      rc_base, out_base = sh(["python3", BASELINE_CHECK, wt])
       rc_demo, out_demo = run_demo(demo, wt)
       rc_chk, keys = run_check(prop, wt)
       diff = open(patch).read()
@@ -165,13 +167,14 @@ def main():
   ap.add_argument("--tier", default="quick")
   ap.add_argument("--all-checks", action="store_true")
   ap.add_argument("--also", nargs="*", default=[])
+  ap.add_argument("--tag", default="", help="import: id prefix, e.g. r2-")
   ap.add_argument("--record", default="",
                   help="note stored in meta.json (what was strengthened)")
   a = ap.parse_args()
   global RECORD
   RECORD = a.record
   if a.cmd == "import":
-    do_import(a.args[0], a.args[1].upper())
+    do_import(a.args[0], a.args[1].upper(), a.tag)
   else:
     do_run(a.args, a.tier, a.all_checks, a.also)
 
